@@ -238,7 +238,8 @@ DialF(x, q, i, c) == IF Outcome(c, x.cfg.fp)
 EndEn(x, q) == x.qry[q].st = "running" /\ x.qry[q].called /\ ~x.qry[q].ended
 EndF(x, q) == [x EXCEPT !.qry[q].ended = TRUE]
 \* the clock advances by 0.6 * findProviderTimeout: a running query's context expires at its 2nd tick
-TickEn(x) == x.ticks < x.cfg.maxticks
+\* (a tick without a running query whose deadline is still ahead changes nothing)
+TickEn(x) == x.ticks < x.cfg.maxticks /\ \E q \in Qs : x.qry[q].st = "running" /\ x.qry[q].age < 2
 TickF(x) == [x EXCEPT !.ticks = @ + 1,
                       !.qry = [q \in Qs |-> IF x.qry[q].st = "running" /\ x.qry[q].age < 2
                                             THEN [x.qry[q] EXCEPT !.age = @ + 1,
